@@ -171,6 +171,8 @@ impl RD {
                     }
                 }
                 CS::Extra(w) => out.push_str(&format!(" {w}")),
+                // a conversion expression has a place in Postgres' ALTER COLUMN .. TYPE only
+                CS::Using(_) => {}
             }
         }
         out
@@ -375,7 +377,11 @@ impl RD {
                     Dialect::Mysql => acts.push(format!("MODIFY COLUMN {}", self.column(c))),
                     _ => {
                         // one action per specification that has a Postgres form
-                        acts.push(format!("ALTER COLUMN {} TYPE {}", self.id(&c.name), self.ty(&c.ty, false)));
+                        let using = match c.specs.first() {
+                            Some(CS::Using(k)) => format!(" USING (({}) + ({k}))", self.id(&c.name)),
+                            _ => String::new(),
+                        };
+                        acts.push(format!("ALTER COLUMN {} TYPE {}{using}", self.id(&c.name), self.ty(&c.ty, false)));
                         for s in &c.specs {
                             match s {
                                 CS::Null => acts.push(format!("ALTER COLUMN {} DROP NOT NULL", self.id(&c.name))),
@@ -385,7 +391,7 @@ impl RD {
                                 CS::PrimaryKey => acts.push(format!("ADD PRIMARY KEY ({})", self.id(&c.name))),
                                 CS::Check(k) => acts.push(format!("ADD CHECK (({}) > ({k}))", self.id(&c.name))),
                             CS::CheckLt(k) => acts.push(format!("ADD CHECK (({}) < ({k}))", self.id(&c.name))),
-                                CS::AutoInc | CS::Generated(..) | CS::Comment(_) | CS::Extra(_) => {}
+                                CS::AutoInc | CS::Generated(..) | CS::Comment(_) | CS::Extra(_) | CS::Using(_) => {}
                             }
                         }
                     }
@@ -400,7 +406,7 @@ impl RD {
                             CS::PrimaryKey => acts.push(format!("ADD PRIMARY KEY ({})", self.id(&c.name))),
                             CS::Check(k) => acts.push(format!("ADD CHECK (({}) > ({k}))", self.id(&c.name))),
                             CS::CheckLt(k) => acts.push(format!("ADD CHECK (({}) < ({k}))", self.id(&c.name))),
-                            CS::AutoInc | CS::Generated(..) | CS::Comment(_) | CS::Extra(_) => {}
+                            CS::AutoInc | CS::Generated(..) | CS::Comment(_) | CS::Extra(_) | CS::Using(_) => {}
                         }
                     }
                 }
